@@ -370,12 +370,13 @@ end ObjectiveLaws
 solve.  Round 10: `sp.delayCC` selects the choose-parent loop (`true`, the default: candidates sorted by cost and
 collision-checked lazily; `false`: the classic loop over the neighbourhood).  The incumbent theorems
 (`rrtstar_best_cost_monotone`, `rrtstar_no_goal_infinite`, `rrtstar_optimized_flag`) hold for both loops as they stand.
-The tree / cost / truthfulness theorems take `Clean o sp (St.init o sp) ops`: along the history the classic loop never
-cached the new motion's `incCost` for `nmotion` AFTER a better parent had replaced it (ghost `staleInc`, which the
-lock-step driver prints for every pass).  With the default `delayCC = true` EVERY history is clean
-(`rrtstar_clean_of_delayCC`), so for the default settings the theorems are unconditional as before; without
-cleanliness they are FALSE for the classic loop as coded (`rrtstar_classic_stale_inc_fails`).  `Laws o`: `isCostBetterThan` is a strict weak order, `combine c identity = c`, motion costs never
-improve a cost, `infiniteCost()` is not better than anything. -/
+The tree / cost / truthfulness theorems take `Clean o sp (St.init o sp) ops`; with the code as it is now (fix e1b5ec649,
+`Space.classicOld = false`) EVERY history of EITHER loop is clean (`rrtstar_clean_of_current`), so
+`rrtstar_cost_inv_current`, `rrtstar_stored_cost_truthful_current`, `rrtstar_flag_exact_current` are unconditional.
+`Space.classicOld = true` is the classic loop as coded before the fix (kept so that a tree without the fix is compared
+with the loop it has): there `Clean` says that the loop never cached the new motion's `incCost` for `nmotion` AFTER a
+better parent had replaced it (ghost `staleInc`), and without it the theorems are FALSE
+(`rrtstar_classic_stale_inc_fails`, finding F340). -/
 section RRTstar
 open OmplModel.RRTstar
 variable {σ δ : Type}
